@@ -39,6 +39,17 @@ CHECKS = {
         note="Trusted: my transcription of MIR.md (DESIGN.md appendix A); combinations MIR.md is silent about are counted as 'unspecified' and not judged. "
              "Faults involving three or more operands at once are not enumerated.",
         design="3/C15"),
+    "C13": dict(
+        technique=TECH + "history replay against a sequential model of the global-name table; probes executed through the real link/interp/gen paths",
+        text="Histories of load_module / load_external / link / redefinition-permission operations are executed on the real library (fast and "
+             "ASan/assert builds, all four execution interfaces). A 40-line sequential model predicts for every module linked at a step which "
+             "definition each of its imports (function via call, inline, call through a register; data via address) and each of its own "
+             "definitions must reach, when the resolver must be consulted and which error must be raised; every probe is executed right after "
+             "its link step and again at the end of the history. Exhaustive over all histories of the stated length on a 5-module universe, random beyond.",
+        note="Trusted: the table model. One interface per context; under lazy-BB generation probing is deferred to the end of the history (functions "
+             "already executed under lazy-BB cannot be inlined by later modules - recorded in DESIGN.md as out of this property). A function export "
+             "arriving after an external of the same name without permission is treated as unspecified.",
+        design="3/C13"),
 }
 
 REASON_TODO = "check not built yet (work in progress; DESIGN.md section 3 describes the planned monitor)"
